@@ -227,9 +227,6 @@ fn run_child(shape: &str, n: usize) -> Result<f64, String> {
 }
 
 fn shape_check(shape: &str, n: usize) -> Option<String> {
-    // (this shape is quadratic on the unchanged tree — a listed finding —, so it is run at a size
-    // that keeps 4n within the child's time limit; 70 000 is still beyond 65 536 nested elements)
-    let n = if shape == "nest-end-tag-handlers" { 70_000 } else { n };
     let t1 = match run_child(shape, n) {
         Ok(t) => t,
         Err(e) => return Some(format!("shape {shape} at n={n}: {e}")),
@@ -242,11 +239,11 @@ fn shape_check(shape: &str, n: usize) -> Option<String> {
         return None;
     }
     // CPU time is a noisy observation on a busy machine: measure both sizes twice more and judge
-    // the smallest time seen for each (noise only ever adds time). (Not for the two shapes with a
-    // listed finding: their outcome never fails the check, and re-measuring a quadratic shape is
+    // the smallest time seen for each (noise only ever adds time). (Not for the shape with a
+    // listed finding: its outcome never fails the check, and re-measuring a quadratic shape is
     // expensive.)
     let (mut t1, mut t4) = (t1, t4);
-    let listed = shape == "nest-end-tag-handlers" || shape == "many-selectors";
+    let listed = shape == "many-selectors";
     for _ in 0..if listed { 0 } else { 2 } {
         if let Ok(t) = run_child(shape, n) {
             t1 = t1.min(t);
@@ -449,15 +446,13 @@ pub fn run_check(ctx: &Ctx) -> i32 {
             }
             // timing may differ between runs: confirm once more before reporting (a time-out or a
             // crash of the child is reported at once)
-            let listed = *shape == "nest-end-tag-handlers" || *shape == "many-selectors";
+            let listed = *shape == "many-selectors";
             let confirm = if msg.contains("not proportional") && !listed { shape_check(shape, base) } else { Some(msg.clone()) };
             if let Some(msg2) = confirm {
                 let case = json!({"kind": "shape", "shape": shape, "n": base});
                 let _ = msg;
                 if *shape == "many-selectors" && msg2.contains("not proportional") {
                     ctx.known_or_violation("selector-set-compile-quadratic", msg2.clone(), case, &|| Some(msg2.clone()));
-                } else if *shape == "nest-end-tag-handlers" && msg2.contains("not proportional") {
-                    ctx.known_or_violation("end-tag-handler-scan-quadratic", msg2.clone(), case, &|| Some(msg2.clone()));
                 } else {
                     let (sh, b) = (shape.to_string(), base);
                     ctx.violation_timing(msg2, case, &move || shape_check(&sh, b));
